@@ -327,6 +327,146 @@ Section Vanish.
 End Vanish.
 
 (* ------------------------------------------------------------------------------------ *)
+(** * The adiabatic gap with the harmonic heat capacity of the same spectrum *)
+
+Lemma Rsum_abs_le {A} (f g : A -> R) X l :
+  List.Forall (fun m => Rabs (f m) <= X * g m) l -> Rabs (Rsum (map f l)) <= X * Rsum (map g l).
+Proof.
+  induction 1 as [|m l Hm _ IH]; cbn [map]; rewrite ?Rsum_cons, ?Rsum_nil.
+  - rewrite Rabs_R0. lra.
+  - eapply Rle_trans; [apply Rabs_triang|]. lra.
+Qed.
+Lemma dsum_abs_le {A} (f g : A -> R) X w rows :
+  List.Forall (fun x => 0 <= x) w ->
+  List.Forall (List.Forall (fun m => Rabs (f m) <= X * g m)) rows ->
+  Rabs (dsum w rows f) <= X * dsum w rows g.
+Proof.
+  intros Hw H; revert w Hw; induction H as [|row rows Hr _ IH]; intros [|wq w] Hw; cbn [dsum];
+    try (rewrite Rabs_R0; lra).
+  inversion Hw as [|? ? Hq Hw']; subst.
+  eapply Rle_trans; [apply Rabs_triang|]. rewrite Rabs_mult, (Rabs_pos_eq wq) by exact Hq.
+  pose proof (Rsum_abs_le f g X row Hr). specialize (IH w Hw'). nra.
+Qed.
+Lemma Rsum_nonneg (l : list R) : List.Forall (fun x => 0 <= x) l -> 0 <= Rsum l.
+Proof. induction 1; rewrite ?Rsum_cons, ?Rsum_nil; lra. Qed.
+Lemma dsum_nonneg {A} (g : A -> R) w rows :
+  List.Forall (fun x => 0 <= x) w -> List.Forall (List.Forall (fun m => 0 <= g m)) rows -> 0 <= dsum w rows g.
+Proof.
+  intros Hw H; revert w Hw; induction H as [|row rows Hr _ IH]; intros [|wq w] Hw; cbn [dsum]; try lra.
+  inversion Hw as [|? ? Hq Hw']; subst. specialize (IH w Hw').
+  assert (0 <= Rsum (map g row)).
+  { apply Rsum_nonneg. rewrite Forall_forall in *. intros x Hx. apply in_map_iff in Hx.
+    destruct Hx as (m & <- & Hm). apply Hr, Hm. }
+  nra.
+Qed.
+Lemma exists_bound_row {A} (x : A -> R) (l : list A) :
+  exists X, 0 <= X /\ List.Forall (fun m => Rabs (x m) <= X) l.
+Proof.
+  induction l as [|m l (X & HX & IH)].
+  - exists 0. split; [lra | constructor].
+  - exists (Rmax X (Rabs (x m))). split; [eapply Rle_trans; [exact HX | apply Rmax_l]|].
+    constructor; [apply Rmax_r|]. eapply Forall_impl; [|exact IH]. cbv beta. intros a Ha.
+    eapply Rle_trans; [exact Ha | apply Rmax_l].
+Qed.
+Lemma exists_bound {A} (x : A -> R) (rows : list (list A)) :
+  exists X, 0 <= X /\ List.Forall (List.Forall (fun m => Rabs (x m) <= X)) rows.
+Proof.
+  induction rows as [|r rows (X & HX & IH)].
+  - exists 0. split; [lra | constructor].
+  - destruct (exists_bound_row x r) as (Y & HY & Hr). exists (Rmax X Y).
+    split; [eapply Rle_trans; [exact HX | apply Rmax_l]|]. constructor.
+    + eapply Forall_impl; [|exact Hr]. cbv beta. intros a Ha. eapply Rle_trans; [exact Ha | apply Rmax_r].
+    + eapply Forall_impl; [|exact IH]. intros row Hrow. eapply Forall_impl; [|exact Hrow]. cbv beta.
+      intros a Ha. eapply Rle_trans; [exact Ha | apply Rmax_l].
+Qed.
+
+Lemma quot_bound b1 b2 s W X1 X2 :
+  0 < W -> 0 <= s -> 0 <= X1 -> 0 <= X2 -> Rabs b1 <= X1 * s -> Rabs b2 <= X2 * s ->
+  Rabs ((b1 / W) * (b2 / W) * / (s / W)) <= X1 * X2 * (s / W).
+Proof.
+  intros HW Hs H1 H2 Hb1 Hb2. destruct (Req_dec s 0) as [-> | Hs0].
+  - assert (b1 = 0).
+    { pose proof (Rabs_pos b1). assert (Rabs b1 = 0) by lra. destruct (Req_dec b1 0); [assumption|].
+      apply Rabs_no_R0 in H3. contradiction. }
+    subst b1. unfold Rdiv. rewrite !Rmult_0_l, Rabs_R0. lra.
+  - assert (Hsp : 0 < s) by lra.
+    replace ((b1 / W) * (b2 / W) * / (s / W)) with (b1 * b2 / (W * s)) by (field; lra).
+    unfold Rdiv. rewrite !Rabs_mult, (Rabs_pos_eq (/ (W * s))).
+    2:{ left. apply Rinv_0_lt_compat. nra. }
+    assert (HP : Rabs b1 * Rabs b2 <= (X1 * s) * (X2 * s)).
+    { apply Rmult_le_compat; try apply Rabs_pos; assumption. }
+    assert (HI : 0 < / (W * s)) by (apply Rinv_0_lt_compat; nra).
+    apply Rle_trans with ((X1 * s) * (X2 * s) * / (W * s)).
+    + apply Rmult_le_compat_r; lra.
+    + right. field. lra.
+Qed.
+
+Section GapHarmonic.
+  Variable K : @consts R.
+  Hypothesis Khdk : 0 < c_hdk K.
+  Hypothesis Kk : 0 < c_k K.
+  Variable w : list R.
+  Variable sp : list (list mode).
+  Variable na : Z.
+  Hypothesis Hna : (0 < na)%Z.
+  Hypothesis Hw : Rsum w <> 0.
+  Hypothesis Hw0 : List.Forall (fun x => 0 <= x) w.
+  Hypothesis Hlen : List.Forall (fun r => length r = Z.to_nat (3 * na)) sp.
+
+  (** harmonic heat capacity per cell of the spectrum handed to the code: k sum_qm w_q/W Q2(Q_qm) *)
+  Definition cv_harmonic (fr : mode -> R) (T : R) : R :=
+    c_k K * (avg_modes (OF:=ROps) w (sample sp (fun m => Q2_neg (OF:=ROps) (Qf (OF:=ROps) (c_hdk K) (fr m) T))) * 3 * IZR na).
+
+  Lemma gap_lin0_harmonic_l (ei ej V : R) (fr ga : mode -> R) :
+    positive_spectrum sp fr ->
+    lin0 (fun T => gap (OF:=ROps) K Q2_neg w na (sample sp fr) (sample sp ga) ei ej V T (cv_harmonic fr T)).
+  Proof.
+    intros Hpos.
+    assert (HW : 0 < Rsum w).
+    { destruct (Rsum_nonneg w Hw0) as [H | H]; [exact H | exfalso; apply Hw; symmetry; exact H]. }
+    set (q := fun T m => Qf (OF:=ROps) (c_hdk K) (fr m) T).
+    set (x := fun (b : bool) m => if b then mg1j (OF:=ROps) ej (ga m) else mg1i (OF:=ROps) ei (ga m)).
+    set (s := fun T => dsum w (phys_rows sp) (fun m => rQ2n (q T m))).
+    set (bb := fun b T => dsum w (phys_rows sp) (fun m => rQ2n (q T m) * x b m)).
+    apply (lin0_ext (fun T => T * (/ V * c_k K * ((bb false T / Rsum w) * (bb true T / Rsum w) * / (s T / Rsum w))))).
+    - intros T HT. unfold gap, cv_harmonic, sample. rewrite !map2q_map. rops'.
+      assert (E : Ris0 T = false) by (apply Ris0_false; lra). rewrite E.
+      pose proof (avg_sample w sp na Hna Hw Hlen) as AS. unfold sample in AS.
+      set (A1 := avg_modes (OF:=ROps) w (map (map (fun m => s_term (OF:=ROps) K Q2_neg ei ej false T (fr m) (ga m))) sp)).
+      set (A2 := avg_modes (OF:=ROps) w (map (map (fun m => s_term (OF:=ROps) K Q2_neg ei ej true T (fr m) (ga m))) sp)).
+      set (AS0 := avg_modes (OF:=ROps) w (map (map (fun m => Q2_neg (OF:=ROps) (Qf (OF:=ROps) (c_hdk K) (fr m) T))) sp)).
+      assert (E1 : bb false T / Rsum w = A1 * 3 * IZR na) by (unfold A1; rewrite AS; reflexivity).
+      assert (E2 : bb true T / Rsum w = A2 * 3 * IZR na) by (unfold A2; rewrite AS; reflexivity).
+      assert (E3 : s T / Rsum w = AS0 * 3 * IZR na) by (unfold AS0; rewrite AS; reflexivity).
+      rewrite E1, E2, E3. unfold Rdiv. rewrite !Rinv_mult.
+      set (iV := / V). set (iA := / AS0). set (iN := / IZR na). field. lra.
+    - apply lin0_T_bdd, bdd0_scal.
+      destruct (exists_bound (x false) (phys_rows sp)) as (X1 & HX1 & HB1).
+      destruct (exists_bound (x true) (phys_rows sp)) as (X2 & HX2 & HB2).
+      assert (Hs : bdd0 (fun T => s T / Rsum w)).
+      { apply (bdd0_ext (fun T => / Rsum w * s T)); [intros; unfold Rdiv; ring|]. apply bdd0_scal.
+        apply (bdd0_dsum (fun T m => rQ2n (q T m))).
+        eapply Forall_impl; [|exact Hpos]. intros row Hr. eapply Forall_impl; [|exact Hr]. intros m Hm.
+        apply (bdd0_Q2 (c_hdk K) (fr m) Khdk Hm). }
+      destruct Hs as (M & HM). exists (X1 * X2 * M). intros T HT.
+      assert (Hq2 : List.Forall (List.Forall (fun m => 0 <= rQ2n (q T m))) (phys_rows sp)).
+      { eapply Forall_impl; [|exact Hpos]. intros row Hr. eapply Forall_impl; [|exact Hr]. intros m Hm.
+        left. apply Q2_bounds_l, Qf_pos; assumption. }
+      assert (Hs0 : 0 <= s T) by (apply dsum_nonneg; assumption).
+      assert (Hb : forall b X, 0 <= X -> List.Forall (List.Forall (fun m => Rabs (x b m) <= X)) (phys_rows sp) ->
+                               Rabs (bb b T) <= X * s T).
+      { intros b X HX HB. apply dsum_abs_le; [exact Hw0|].
+        rewrite Forall_forall in *. intros row Hrow. specialize (HB row Hrow). specialize (Hq2 row Hrow).
+        rewrite Forall_forall in *. intros m Hm. specialize (HB m Hm). specialize (Hq2 m Hm).
+        rewrite Rabs_mult, (Rabs_pos_eq _ Hq2). rewrite (Rmult_comm X). apply Rmult_le_compat_l; assumption. }
+      eapply Rle_trans; [apply (quot_bound _ _ (s T) (Rsum w) X1 X2 HW Hs0 HX1 HX2 (Hb false X1 HX1 HB1) (Hb true X2 HX2 HB2))|].
+      specialize (HM T HT). assert (0 <= s T / Rsum w) by (apply Rdiv_le_0_compat; lra).
+      rewrite Rabs_pos_eq in HM by assumption.
+      assert (0 <= X1 * X2) by (apply Rmult_le_pos; assumption). nra.
+  Qed.
+End GapHarmonic.
+
+(* ------------------------------------------------------------------------------------ *)
 (** * Shear solver: the only divisors are eps_ij * eps_kl = 1 and the multiplicity *)
 
 Lemma shear_finite_l :
